@@ -132,7 +132,21 @@ func (_this *structBuilder) swapKeyValue() {
 	_this.nextIsKey = !_this.nextIsKey
 }
 
+// A map key that is not a string cannot name a field. It is skipped together
+// with its value, like a string that names no field. (Without this the key and
+// its value were both built into the field named before them.)
+func (_this *structBuilder) ignoreKeyThatIsNotAString(ctx *Context) bool {
+	if !_this.nextIsKey {
+		return false
+	}
+	ctx.StackBuilder(globalIgnoreBuilder)
+	return true
+}
+
 func (_this *structBuilder) BuildFromNull(ctx *Context, _ reflect.Value) reflect.Value {
+	if _this.ignoreKeyThatIsNotAString(ctx) {
+		return _this.nextValue
+	}
 	_this.nextBuilderGenerator(ctx).BuildFromNull(ctx, _this.nextValue)
 	object := _this.nextValue
 	_this.swapKeyValue()
@@ -140,6 +154,9 @@ func (_this *structBuilder) BuildFromNull(ctx *Context, _ reflect.Value) reflect
 }
 
 func (_this *structBuilder) BuildFromBool(ctx *Context, value bool, _ reflect.Value) reflect.Value {
+	if _this.ignoreKeyThatIsNotAString(ctx) {
+		return _this.nextValue
+	}
 	_this.nextBuilderGenerator(ctx).BuildFromBool(ctx, value, _this.nextValue)
 	object := _this.nextValue
 	_this.swapKeyValue()
@@ -147,6 +164,9 @@ func (_this *structBuilder) BuildFromBool(ctx *Context, value bool, _ reflect.Va
 }
 
 func (_this *structBuilder) BuildFromInt(ctx *Context, value int64, _ reflect.Value) reflect.Value {
+	if _this.ignoreKeyThatIsNotAString(ctx) {
+		return _this.nextValue
+	}
 	_this.nextBuilderGenerator(ctx).BuildFromInt(ctx, value, _this.nextValue)
 	object := _this.nextValue
 	_this.swapKeyValue()
@@ -154,6 +174,9 @@ func (_this *structBuilder) BuildFromInt(ctx *Context, value int64, _ reflect.Va
 }
 
 func (_this *structBuilder) BuildFromUint(ctx *Context, value uint64, _ reflect.Value) reflect.Value {
+	if _this.ignoreKeyThatIsNotAString(ctx) {
+		return _this.nextValue
+	}
 	_this.nextBuilderGenerator(ctx).BuildFromUint(ctx, value, _this.nextValue)
 	object := _this.nextValue
 	_this.swapKeyValue()
@@ -161,6 +184,9 @@ func (_this *structBuilder) BuildFromUint(ctx *Context, value uint64, _ reflect.
 }
 
 func (_this *structBuilder) BuildFromBigInt(ctx *Context, value *big.Int, _ reflect.Value) reflect.Value {
+	if _this.ignoreKeyThatIsNotAString(ctx) {
+		return _this.nextValue
+	}
 	_this.nextBuilderGenerator(ctx).BuildFromBigInt(ctx, value, _this.nextValue)
 	object := _this.nextValue
 	_this.swapKeyValue()
@@ -168,6 +194,9 @@ func (_this *structBuilder) BuildFromBigInt(ctx *Context, value *big.Int, _ refl
 }
 
 func (_this *structBuilder) BuildFromFloat(ctx *Context, value float64, _ reflect.Value) reflect.Value {
+	if _this.ignoreKeyThatIsNotAString(ctx) {
+		return _this.nextValue
+	}
 	_this.nextBuilderGenerator(ctx).BuildFromFloat(ctx, value, _this.nextValue)
 	object := _this.nextValue
 	_this.swapKeyValue()
@@ -175,6 +204,9 @@ func (_this *structBuilder) BuildFromFloat(ctx *Context, value float64, _ reflec
 }
 
 func (_this *structBuilder) BuildFromBigFloat(ctx *Context, value *big.Float, _ reflect.Value) reflect.Value {
+	if _this.ignoreKeyThatIsNotAString(ctx) {
+		return _this.nextValue
+	}
 	_this.nextBuilderGenerator(ctx).BuildFromBigFloat(ctx, value, _this.nextValue)
 	object := _this.nextValue
 	_this.swapKeyValue()
@@ -182,6 +214,9 @@ func (_this *structBuilder) BuildFromBigFloat(ctx *Context, value *big.Float, _ 
 }
 
 func (_this *structBuilder) BuildFromDecimalFloat(ctx *Context, value compact_float.DFloat, _ reflect.Value) reflect.Value {
+	if _this.ignoreKeyThatIsNotAString(ctx) {
+		return _this.nextValue
+	}
 	_this.nextBuilderGenerator(ctx).BuildFromDecimalFloat(ctx, value, _this.nextValue)
 	object := _this.nextValue
 	_this.swapKeyValue()
@@ -189,6 +224,9 @@ func (_this *structBuilder) BuildFromDecimalFloat(ctx *Context, value compact_fl
 }
 
 func (_this *structBuilder) BuildFromBigDecimalFloat(ctx *Context, value *apd.Decimal, _ reflect.Value) reflect.Value {
+	if _this.ignoreKeyThatIsNotAString(ctx) {
+		return _this.nextValue
+	}
 	_this.nextBuilderGenerator(ctx).BuildFromBigDecimalFloat(ctx, value, _this.nextValue)
 	object := _this.nextValue
 	_this.swapKeyValue()
@@ -196,6 +234,9 @@ func (_this *structBuilder) BuildFromBigDecimalFloat(ctx *Context, value *apd.De
 }
 
 func (_this *structBuilder) BuildFromUID(ctx *Context, value []byte, _ reflect.Value) reflect.Value {
+	if _this.ignoreKeyThatIsNotAString(ctx) {
+		return _this.nextValue
+	}
 	_this.nextBuilderGenerator(ctx).BuildFromUID(ctx, value, _this.nextValue)
 	object := _this.nextValue
 	_this.swapKeyValue()
@@ -221,6 +262,9 @@ func (_this *structBuilder) BuildFromArray(ctx *Context, arrayType events.ArrayT
 			_this.nextBuilderGenerator(ctx).BuildFromArray(ctx, arrayType, value, _this.nextValue)
 		}
 	default:
+		if _this.ignoreKeyThatIsNotAString(ctx) {
+			return _this.nextValue
+		}
 		_this.nextBuilderGenerator(ctx).BuildFromArray(ctx, arrayType, value, _this.nextValue)
 	}
 	object := _this.nextValue
@@ -247,6 +291,9 @@ func (_this *structBuilder) BuildFromStringlikeArray(ctx *Context, arrayType eve
 			_this.nextBuilderGenerator(ctx).BuildFromStringlikeArray(ctx, arrayType, value, _this.nextValue)
 		}
 	default:
+		if _this.ignoreKeyThatIsNotAString(ctx) {
+			return _this.nextValue
+		}
 		_this.nextBuilderGenerator(ctx).BuildFromStringlikeArray(ctx, arrayType, value, _this.nextValue)
 	}
 	object := _this.nextValue
@@ -255,6 +302,9 @@ func (_this *structBuilder) BuildFromStringlikeArray(ctx *Context, arrayType eve
 }
 
 func (_this *structBuilder) BuildFromCustomBinary(ctx *Context, customType uint64, value []byte, dst reflect.Value) reflect.Value {
+	if _this.ignoreKeyThatIsNotAString(ctx) {
+		return _this.nextValue
+	}
 	_this.nextBuilderGenerator(ctx).BuildFromCustomBinary(ctx, customType, value, _this.nextValue)
 	object := _this.nextValue
 	_this.swapKeyValue()
@@ -262,6 +312,9 @@ func (_this *structBuilder) BuildFromCustomBinary(ctx *Context, customType uint6
 }
 
 func (_this *structBuilder) BuildFromCustomText(ctx *Context, customType uint64, value string, dst reflect.Value) reflect.Value {
+	if _this.ignoreKeyThatIsNotAString(ctx) {
+		return _this.nextValue
+	}
 	_this.nextBuilderGenerator(ctx).BuildFromCustomText(ctx, customType, value, _this.nextValue)
 	object := _this.nextValue
 	_this.swapKeyValue()
@@ -269,6 +322,9 @@ func (_this *structBuilder) BuildFromCustomText(ctx *Context, customType uint64,
 }
 
 func (_this *structBuilder) BuildFromMedia(ctx *Context, mediaType string, data []byte, _ reflect.Value) reflect.Value {
+	if _this.ignoreKeyThatIsNotAString(ctx) {
+		return _this.nextValue
+	}
 	_this.nextBuilderGenerator(ctx).BuildFromMedia(ctx, mediaType, data, _this.nextValue)
 	object := _this.nextValue
 	_this.swapKeyValue()
@@ -276,6 +332,9 @@ func (_this *structBuilder) BuildFromMedia(ctx *Context, mediaType string, data 
 }
 
 func (_this *structBuilder) BuildFromTime(ctx *Context, value compact_time.Time, _ reflect.Value) reflect.Value {
+	if _this.ignoreKeyThatIsNotAString(ctx) {
+		return _this.nextValue
+	}
 	_this.nextBuilderGenerator(ctx).BuildFromTime(ctx, value, _this.nextValue)
 	object := _this.nextValue
 	_this.swapKeyValue()
